@@ -3,8 +3,8 @@
    dispatch:  a parent chain of 0..3 objects ending in null / an integer / a boolean / an array,
               each level defining one of the member sets in Defs (method m, operator +, get,
               set; overriding included), and one call on the outermost object: m with the
-              right and a wrong argument count, the operators + and &, a[i], a[i] <- v, get and
-              set by name, an unknown method;
+              right and a wrong argument count, the operators + and &, == null, != 5 (and their Feeny spellings
+              eq / neq by name), a[i], a[i] <- v, get and set by name, an unknown method, a field read;
    alias:     a heap value (object or array) reachable through two storage locations of kinds
               variable / argument / field / array element / this, mutated through the first
               (field set or element set) and observed through the second; and the same with
@@ -16,7 +16,7 @@ VARIABLES d
 Ends == {"null", "int", "bool", "arr"}
 Defs == {"", "m", "+", "g", "s", "m+gs"}
 Chains == UNION {[1..n -> Defs] : n \in 0..3}
-Calls == {"m1", "m0", "m2", "plus", "and", "index", "setindex", "get", "set", "zz", "field"}
+Calls == {"m1", "m0", "m2", "plus", "and", "index", "setindex", "get", "set", "zz", "field", "eqnull", "ne5", "feq", "fneq"}
 Kinds == {"var", "arg", "field", "elem", "this"}
 Dispatch == {<<"dispatch", e, c>> \o ch : e \in Ends, c \in Calls, ch \in Chains}
 Alias == {<<"alias", target, k1, k2, mut>> : target \in {"obj", "arr"}, k1 \in Kinds, k2 \in Kinds, mut \in {"setfield", "setelem", "method"}}
